@@ -448,8 +448,12 @@ func concatStrings(lhs *ValueExpression, rhs *ValueExpression) *ValueExpression 
 		return lhs
 	}
 
-	// lhs is string, add rhs to prefix of first var
+	// lhs is string, add rhs to prefix of first var (or to the suffix if rhs has no variables)
 	if lhs.FString == nil && rhs.FString != nil {
+		if len(rhs.FString.Vars) == 0 {
+			rhs.FString.Suffix = lhs.String[1:len(lhs.String)-1] + rhs.FString.Suffix
+			return rhs
+		}
 		rhs.FString.Vars[0].Prefix = lhs.String[1:len(lhs.String)-1] + rhs.FString.Vars[0].Prefix
 		return rhs
 	}
